@@ -78,6 +78,20 @@ def args_for(rng, decl):
     return lits
 
 
+def deliver(rng, name, text):
+    """the op that hands `text` to the interface: mostly `run` with a std writer, sometimes the pass-through writer or
+    `process` with read boundaries every 1..7 bytes (the selection of a handler must not depend on the way in)"""
+    r = rng.random()
+    if r < 0.7 or len(text) > 250:
+        return f'RUN {name} std {hx(text)}'
+    if r < 0.85:
+        return f'RUN {name} pt {hx(text)}'
+    sizes, tot = [], 0
+    while tot < len(text):
+        sizes.append(rng.randint(1, 7)); tot += sizes[-1]
+    return f'PROC {name} 256 {hx(text)} {",".join(map(str, sizes))}'
+
+
 def header_cases(rng, iface, tier):
     out = []
     name = iface.name
@@ -109,7 +123,7 @@ def header_cases(rng, iface, tier):
             exp = ('call', entry, G.decl_errs(d)) if res == ('ok', d.id) else None
             if exp is None:
                 continue   # e.g. all-optional omitted spelling that resolves elsewhere
-            out.append(Case(f'RUN {name} std {hx(text)}', expected_header_oracle, {'expect': exp, 'kind': 'RUN-spelling'}))
+            out.append(Case(deliver(rng, name, text), expected_header_oracle, {'expect': exp, 'kind': 'RUN-spelling'}))
             # misplaced level separators on a valid spelling: surplus trailing, doubled or leading-doubled colon
             hdr = ':'.join(mn)
             if not hdr.startswith('*'):
@@ -119,7 +133,7 @@ def header_cases(rng, iface, tier):
                     forms.append(':'.join(mn[:j]) + '::' + ':'.join(mn[j:]) + ('?' if query else ''))
                 for fm in (rng.sample(forms, 2) if tier == 'quick' else forms):
                     for tail in (b'', b' ' + b','.join(l[0] for l in lits) if lits else b''):
-                        out.append(Case(f'RUN {name} std {hx(fm.encode() + tail + bytes([10]))}', expected_header_oracle,
+                        out.append(Case(deliver(rng, name, fm.encode() + tail + bytes([10])), expected_header_oracle,
                                         {'expect': ('undef',), 'kind': 'RUN-colon'}))
                 out.append(Case(f'RUN {name} std {hx((hdr + "?:").encode() + bytes([10]))}', expected_header_oracle,
                                 {'expect': ('one-error',), 'kind': 'RUN-colon'}))
@@ -168,7 +182,7 @@ def header_cases(rng, iface, tier):
                 else:
                     t2 = G.render_unit(rng, mm, q2, []) + b'\n'
                     e2 = ('undef',)
-                out.append(Case(f'RUN {name} std {hx(t2)}', expected_header_oracle, {'expect': e2, 'kind': 'RUN-nearmiss'}))
+                out.append(Case(deliver(rng, name, t2), expected_header_oracle, {'expect': e2, 'kind': 'RUN-nearmiss'}))
     # standard commands exist exactly when requested
     for hdr, flag in (('SYST:VERS?', 'S'), ('SYSTem:VERSion?', 'S'), ('SYST:ERR?', 'E'), ('syst:err:next?', 'E'),
                       ('SYSTEM:ERROR:COUNT?', 'E'), ('SYST:ERR:COUN?', 'E')):
